@@ -297,6 +297,11 @@ def check(ctx):
     npatch = 0
     for cls in a.protos[1:]:
         cat = catalogue(a, cls)
+        # the version that decides the DUP patch (and every other version-dependent byte) is the one of this connection's CONNECT
+        from ..lifecycle import rule_session_field
+        rule_session_field(ctx, cat, "S6", "version", "the protocol version",
+                           "packets re-sent before the assignment (the session resume at CONNACK) are patched according to the previous "
+                           "connection's or the default version: DUP missing under 3.1, or set on reserved flag bits under 3.1.1")
         for ent, p, e in cat.all_events("SETITEM"):
             b = e.a["base"]
             if isinstance(b, tuple) and b[0] in ("attr", "encbuf") and (b[0] == "encbuf" or b[2] == "encoded"):
